@@ -48,6 +48,15 @@ pub fn pad_color_region(
     crate::util::pad_color_region(image_header, frame_header, frame_region)
 }
 
+/// `image::composite`'s region computation (the region handed to `blend()`).
+pub fn composite_region(
+    image_header: &ImageHeader,
+    frame_header: &FrameHeader,
+    oriented_image_region: Region,
+) -> Region {
+    crate::image::composite_region(image_header, frame_header, oriented_image_region)
+}
+
 pub fn compute_modular_region<S: Sample>(
     frame_header: &FrameHeader,
     gmodular: &GlobalModular<S>,
